@@ -4,6 +4,7 @@ package main
 // properties in /verif/properties.jsonl.  See /verif/DESIGN.md.
 
 import (
+	"encoding/json"
 	"flag"
 	"fmt"
 	"os"
@@ -39,7 +40,17 @@ func main() {
 	known := flag.String("known", "/verif/known_findings.json", "known findings file")
 	only := flag.String("only", "", "replay file: re-evaluate only that obligation")
 	list := flag.Bool("list", false, "print every obligation")
+	describe := flag.Bool("describe", false, "print the registered properties (id, what is decided, assumptions) as JSON and exit")
 	flag.Parse()
+	if *describe {
+		out := map[string]interface{}{}
+		for id, pr := range registry {
+			out[id] = map[string]interface{}{"explain": pr.Meta.Explain, "assume": pr.Meta.Assume}
+		}
+		b, _ := json.MarshalIndent(out, "", " ")
+		fmt.Println(string(b))
+		return
+	}
 
 	exit := 0
 	defer func() {
